@@ -4,7 +4,7 @@ from ..core import gz, glist, gbool
 ID = "C21"
 PROPS = ["theories/Props/C21.vo"]
 PINNED = ["C21_holds_outside", "C21_refuted_records_shared_across_pollers", "C21_reuse_clean", "C21_oracle_sound",
-          "C21_events_do_not_matter"]
+          "C21_events_do_not_matter", "C21_one_poller_never_tagged"]
 CASES_MODULE = "Cases.C21"
 HEADER = ""
 AREA = "net21"
